@@ -1181,9 +1181,18 @@ open Qx.C13
 from the `then` call on; `k` = id of the continuation `chain` attached -/
 def finishes (evs : List Ev) (k : Nat) : Nat := (ranIds evs).count k
 
-/-- operations on the source that neither finish it, nor attach another continuation, nor drop a
-handle, nor destroy the chain's context -/
-def Quiet (ctx : Nat) (op : Op) : Prop := op = .copyHandle ∨ ∃ c, op = .destroyCtx c ∧ c ≠ ctx
+/-- what may happen to the source between the `chain` call and its `finish`, given `refs` handles at
+the start: handle copies, handle drops that leave at least one handle (the request table keeps the
+promise until it finishes it), destruction of contexts other than the chain's.  Excluded: another
+`then` on the same task (it would replace the chain's continuation — `chain` consumes its task
+handle), destruction of the chain's own context, and dropping the last handle. -/
+def Interlude (ctx : Nat) : Nat → List Op → Prop
+  | _, [] => True
+  | refs, .copyHandle :: rest => Interlude ctx (refs + 1) rest
+  | refs, .dropHandle :: rest => 2 ≤ refs ∧ Interlude ctx (refs - 1) rest
+  | refs, .destroyCtx c :: rest => c ≠ ctx ∧ Interlude ctx refs rest
+  | _, .thenOp _ _ :: _ => False
+  | _, .finish _ :: _ => False
 
 theorem run_append (a b : List Op) : ∀ (s : St),
     C13.run s (a ++ b) = ((C13.run (C13.run s a).1 b).1, (C13.run s a).2 ++ (C13.run (C13.run s a).1 b).2) := by
@@ -1214,45 +1223,68 @@ structure Waiting (s : St) (c : Cont) : Prop where
   cont : s.cont = some c
   alive : s.alive c.ctx = true
 
-theorem quiet_step {s : St} {c : Cont} {op : Op} (h : Waiting s c) (hq : Quiet c.ctx op) :
-    Waiting (C13.step s op).1 c ∧ (C13.step s op).2 = [] := by
-  rcases hq with rfl | ⟨c', rfl, hne⟩
-  · have hr := h.refs
-    have hcore : C13.stepCore s .copyHandle = ({ s with refs := s.refs + 1 }, []) := by
-      simp [C13.stepCore, hr]
-    have hrefs : (C13.stepCore s .copyHandle).1.refs ≠ 0 := by rw [hcore]; simp
-    rw [step_fst, step_snd_of_refs hrefs, hcore]
-    exact ⟨⟨by simp, h.unfinished, h.cont, h.alive⟩, rfl⟩
-  · have hcore : C13.stepCore s (.destroyCtx c') =
-        ({ s with dead := if c' = 0 then s.dead else c' :: s.dead }, []) := by
-      simp [C13.stepCore]
-    have hrefs : (C13.stepCore s (.destroyCtx c')).1.refs ≠ 0 := by rw [hcore]; exact h.refs
-    rw [step_fst, step_snd_of_refs hrefs, hcore]
-    refine ⟨⟨h.refs, h.unfinished, h.cont, ?_⟩, rfl⟩
-    have ha := h.alive
-    simp only [St.alive] at ha ⊢
-    split
-    · exact ha
-    · simp only [List.contains_cons, Bool.not_or, Bool.and_eq_true]
-      refine ⟨?_, ha⟩
-      simp only [Bool.not_eq_true', beq_eq_false_iff_ne, ne_eq]
-      exact fun h' => hne h'.symm
-
-theorem quiet_run (quiet : List Op) : ∀ {s : St} {c : Cont}, Waiting s c → (∀ op ∈ quiet, Quiet c.ctx op) →
+theorem quiet_run (quiet : List Op) : ∀ {s : St} {c : Cont}, Waiting s c → Interlude c.ctx s.refs quiet →
     Waiting (C13.run s quiet).1 c ∧ (C13.run s quiet).2 = [] := by
   induction quiet with
   | nil => intro s c h _; exact ⟨h, rfl⟩
   | cons op rest ih =>
     intro s c h hq
     simp only [C13.run]
-    obtain ⟨h1, e1⟩ := quiet_step h (hq op (List.mem_cons_self))
-    obtain ⟨h2, e2⟩ := ih h1 (fun o ho => hq o (List.mem_cons_of_mem _ ho))
-    exact ⟨h2, by rw [e1, e2]; rfl⟩
+    have hr := h.refs
+    cases op with
+    | thenOp x y => exact absurd hq (by simp [Interlude])
+    | finish v => exact absurd hq (by simp [Interlude])
+    | copyHandle =>
+      simp only [Interlude] at hq
+      have hcore : C13.stepCore s .copyHandle = ({ s with refs := s.refs + 1 }, []) := by
+        simp [C13.stepCore, hr]
+      have hrefs : (C13.stepCore s .copyHandle).1.refs ≠ 0 := by rw [hcore]; simp
+      have hw : Waiting (C13.step s .copyHandle).1 c := by
+        rw [step_fst, hcore]; exact ⟨by simp, h.unfinished, h.cont, h.alive⟩
+      have hq' : Interlude c.ctx (C13.step s .copyHandle).1.refs rest := by
+        rw [step_fst, hcore]; exact hq
+      obtain ⟨h2, e2⟩ := ih hw hq'
+      exact ⟨h2, by rw [step_snd_of_refs hrefs, hcore, e2]; rfl⟩
+    | dropHandle =>
+      simp only [Interlude] at hq
+      have h2le := hq.1
+      have hcore : C13.stepCore s .dropHandle = ({ s with refs := s.refs - 1 }, []) := by
+        have h1 : s.refs ≠ 1 := by omega
+        simp [C13.stepCore, hr, h1]
+      have hrefs : (C13.stepCore s .dropHandle).1.refs ≠ 0 := by rw [hcore]; show s.refs - 1 ≠ 0; omega
+      have hw : Waiting (C13.step s .dropHandle).1 c := by
+        rw [step_fst, hcore]; exact ⟨by show s.refs - 1 ≠ 0; omega, h.unfinished, h.cont, h.alive⟩
+      have hq' : Interlude c.ctx (C13.step s .dropHandle).1.refs rest := by
+        rw [step_fst, hcore]; exact hq.2
+      obtain ⟨h2, e2⟩ := ih hw hq'
+      exact ⟨h2, by rw [step_snd_of_refs hrefs, hcore, e2]; rfl⟩
+    | destroyCtx c' =>
+      simp only [Interlude] at hq
+      have hne := hq.1
+      have hcore : C13.stepCore s (.destroyCtx c') =
+          ({ s with dead := if c' = 0 then s.dead else c' :: s.dead }, []) := by
+        simp [C13.stepCore]
+      have hrefs : (C13.stepCore s (.destroyCtx c')).1.refs ≠ 0 := by rw [hcore]; exact hr
+      have hw : Waiting (C13.step s (.destroyCtx c')).1 c := by
+        rw [step_fst, hcore]
+        refine ⟨hr, h.unfinished, h.cont, ?_⟩
+        have ha := h.alive
+        simp only [St.alive] at ha ⊢
+        split
+        · exact ha
+        · simp only [List.contains_cons, Bool.not_or, Bool.and_eq_true]
+          refine ⟨?_, ha⟩
+          simp only [Bool.not_eq_true', beq_eq_false_iff_ne, ne_eq]
+          exact fun h' => hne h'.symm
+      have hq' : Interlude c.ctx (C13.step s (.destroyCtx c')).1.refs rest := by
+        rw [step_fst, hcore]; exact hq.2
+      obtain ⟨h2, e2⟩ := ih hw hq'
+      exact ⟨h2, by rw [step_snd_of_refs hrefs, hcore, e2]; rfl⟩
 
 /-- the chain's continuation runs when the source is finished after any quiet interlude -/
 theorem runs_at_finish {s : St} {ctx : Nat} (quiet post : List Op) (v : Nat)
     (hr : s.refs ≠ 0) (hf : s.finished = false) (ha : s.alive ctx = true)
-    (hq : ∀ op ∈ quiet, Quiet ctx op) :
+    (hq : Interlude ctx s.refs quiet) :
     s.nextId ∈ ranIds (C13.run s (.thenOp ctx [] :: (quiet ++ .finish v :: post))).2 := by
   have heff : s.effCtx ctx = ctx := by simp [St.effCtx, ha]
   have hcore : C13.stepCore s (.thenOp ctx []) =
@@ -1267,7 +1299,7 @@ theorem runs_at_finish {s : St} {ctx : Nat} (quiet post : List Op) (v : Nat)
   have hw : Waiting (C13.step s (.thenOp ctx [])).1 { id := s.nextId, ctx := ctx, body := [] } := by
     rw [hstep1]
     exact ⟨hr, hf, rfl, ha⟩
-  obtain ⟨hw2, e2⟩ := quiet_run quiet hw hq
+  obtain ⟨hw2, e2⟩ := quiet_run quiet hw (by rw [hstep1]; exact hq)
   have hfin := Qx.C13.finish_delivers_to_attached (C13.run (C13.step s (.thenOp ctx [])).1 quiet).1
     { id := s.nextId, ctx := ctx, body := [] } v hw2.refs hw2.unfinished hw2.cont hw2.alive
   have hmem := mem_step_of_mem_core (List.mem_of_mem_head? hfin.1)
